@@ -62,6 +62,16 @@ func genC09(t *rapid.T) C09Scn {
 	default:
 		s.Cert = genC09Cert(t, "", s.Role, fault)
 	}
+	// further peers presented to the same verifier / configuration: mostly acceptable certificates that differ from the
+	// pinned one (so the pin alone must refuse them), sometimes the pinned one again
+	nThen := rapid.SampledFrom([]int{0, 0, 1, 1, 2}).Draw(t, "nthen")
+	for i := 0; i < nThen; i++ {
+		if rapid.IntRange(0, 4).Draw(t, "then-same") == 0 {
+			s.Then = append(s.Then, s.Cert)
+		} else {
+			s.Then = append(s.Then, genC09Cert(t, "then-", s.Role, genFault(t, "then-", 4)))
+		}
+	}
 	return s
 }
 
